@@ -58,7 +58,20 @@ def snapshot(grid, pool, h0, lvl):
         "trunc": [[pool.add(t[0]), pool.add(t[1])] for t in grid.truncations],
         "hq": exact_int(h * 2 ** lvl / h0, tol=1e-12),
         "alias": alias, "dim": d,
+        # number of states of the grid as the grid reports it, modulo three primes below 2^15 (TLC multiplies the axis lengths)
+        "cnt": count_mods(grid),
     }
+
+
+PRIMES = (32749, 32719, 32717)
+
+
+def count_mods(grid):
+    try:
+        n = int(grid.number_of_points())
+    except Exception:
+        return [-1, -1, -1]
+    return [n % p for p in PRIMES]
 
 
 def neighbours(grid, pool):
@@ -247,6 +260,15 @@ def main():
             tg.append({"tid": f"t{len(tg)}", "hdr": {"kind": "time"}, "ev": [{"e": "TimeGridAccepted", "why": kind}]})
         except ValueError:
             tg.append({"tid": f"t{len(tg)}", "hdr": {"kind": "time"}, "ev": [{"e": "TimeGridRefused", "why": kind}]})
+    # the number of states of a very large grid (3 axes of 2^21 + 1 states: beyond 2^63 in total), by its residues
+    try:
+        n1 = 2 ** 21 + 1
+        hbig = 2.0 ** -20
+        axis = (np.arange(n1) - 2 ** 20) * hbig
+        big = CTMCGrid(h=hbig, origin_coordinate=2 ** 20, axes=[axis] * 3)
+        tg.append({"tid": f"t{len(tg)}", "hdr": {"kind": "count"}, "ev": [{"e": "Count", "sizes": [n1, n1, n1], "cnt": count_mods(big)}]})
+    except Exception as ex:
+        tg.append({"tid": f"t{len(tg)}", "hdr": {"kind": "count"}, "ev": [{"e": "Raise", "what": type(ex).__name__ + ": " + str(ex)[:60]}]})
     with open(out, "w") as f:
         for t in traces + tg:
             f.write(json.dumps(t, separators=(",", ":")) + "\n")
